@@ -296,6 +296,14 @@ func (x *Exec) compsOfCall(cc *ssa.CallCommon, seen map[*ssa.Function]bool, out 
 	}
 	callee := cc.StaticCallee()
 	if callee == nil {
+		// package-level function variables bound to library functions (misc.go)
+		if u, ok := cc.Value.(*ssa.UnOp); ok {
+			if g, ok := u.X.(*ssa.Global); ok {
+				if _, isFV := funcVars["G_"+g.Name()]; isFV {
+					return
+				}
+			}
+		}
 		if cc.IsInvoke() {
 			// interface dispatch to package methods
 			for _, fn := range x.invokeTargets(cc) {
